@@ -119,9 +119,10 @@ def build_tokens(m, spec):
             out.append(A.Obj('%s%d' % (w, i), {'catcode': None, 'nodeName': '#text'}, cls=c))
         elif w in ('not', 'and', 'or', 'NOT', 'AND', 'OR'):
             c = m.cls(MOD, w if w.isupper() else '_' + w)
-            out.append(A.Obj('%s%d' % (w, i), {'catcode': None, 'nodeName': w}, cls=c))
+            out.append(A.Obj('%s%d' % (w, i), {'catcode': None, 'nodeName': w, '__eqkey': ('macro', w)}, cls=c))
         elif w in ('(', ')'):
-            out.append(A.Obj('%s%d' % (w, i), {'catcode': None, 'nodeName': w}, cls=Command))
+            # (nodes of the document tree compare by value: two \( are equal, though not identical)
+            out.append(A.Obj('%s%d' % (w, i), {'catcode': None, 'nodeName': w, '__eqkey': ('macro', w)}, cls=Command))
         elif w == 'SP':
             out.append(A.TextObj(' ', label='SP%d' % i, catcode=10, nodeName='#text', __eqkey=('tok', 10, ' ')))
         elif w in ('<', '>', '=') or w.lstrip('-').isdigit():
@@ -228,7 +229,8 @@ def generated_tests(tier):
         for seq in itertools.product(alphabet, repeat=L):
             add(seq)
     pats = ['a and b or c', 'a or b and c', 'not a and b', 'a and not b', 'not not a', 'not ( a or b )', 'a and ( b or c )', '( a or b ) and c',
-            'not a or not b and c', 'a or not ( b and c )', 'not ( not a and b ) or c', '( ( a ) ) and ( b )', 'a or b or c', 'a and b and c']
+            'not a or not b and c', 'a or not ( b and c )', 'not ( not a and b ) or c', '( ( a ) ) and ( b )', 'a or b or c', 'a and b and c',
+            'a or ( ( b ) and c )', 'not ( ( a ) or b )', '( a and ( b or ( c ) ) )', '( ( a or b ) and c ) or a']
     for p in pats:
         for vals in itertools.product('TF', repeat=3):
             w = [dict(zip('abc', vals)).get(x, x) for x in p.split()]
